@@ -97,17 +97,26 @@ func (vm *VirtualMachine) applyOptions(options []Option) error {
 		return fmt.Errorf("vm is already running")
 	}
 
+	// Remember the globals as they are: if the new ones are rejected, the VM
+	// keeps the ones it had, instead of failing every later invocation on
+	// the value that one invocation tried to supply
+	prevInputGlobals := make(map[string]any, len(vm.inputGlobals))
+	for name, value := range vm.inputGlobals {
+		prevInputGlobals[name] = value
+	}
+
 	// Apply options
 	for _, opt := range options {
 		opt(vm)
 	}
 
 	// Convert globals to Risor objects
-	var err error
-	vm.globals, err = object.AsObjects(vm.inputGlobals)
+	globals, err := object.AsObjects(vm.inputGlobals)
 	if err != nil {
+		vm.inputGlobals = prevInputGlobals
 		return fmt.Errorf("invalid global provided: %v", err)
 	}
+	vm.globals = globals
 
 	// Add any globals that are modules to a cache to make them available
 	// to import statements
@@ -1150,6 +1159,13 @@ func (vm *VirtualMachine) Clone() (*VirtualMachine, error) {
 		modules[name] = module
 	}
 
+	// The clone gets its own table of input globals: options given to a
+	// RunCode on the clone (or on the original) write to it
+	inputGlobals := make(map[string]any, len(vm.inputGlobals))
+	for name, value := range vm.inputGlobals {
+		inputGlobals[name] = value
+	}
+
 	// Snapshot the loaded code
 	loadedCode := make(map[*compiler.Code]*code, len(vm.loadedCode))
 	for cc, c := range vm.loadedCode {
@@ -1164,7 +1180,7 @@ func (vm *VirtualMachine) Clone() (*VirtualMachine, error) {
 		importer:     vm.importer,
 		os:           vm.os,
 		main:         vm.main,
-		inputGlobals: vm.inputGlobals,
+		inputGlobals: inputGlobals,
 		globals:      vm.globals,
 		modules:      modules,
 		loadedCode:   loadedCode,
